@@ -9,8 +9,9 @@
   * `scrollUp_one_records` / `scrollUp_one_noop_history` : one line scrolling off the top is
     appended unmodified to the history, which keeps the `N` most recent lines, exactly when
     the capacity is non-zero and no scroll region is active; while the view is scrolled back
-    the offset grows by one up to the history length (`view_stable`).
-  * `offset_irrelevant_scrollUp` : the offset never influences the live rows.
+    the offset grows by one up to the history length (`view_stable`, `view_moves_at_capacity`: MiscC12).
+  * `offset_irrelevant_scrollUp` : the offset never influences the live rows (one step; over ALL actions, the n-step
+    recording and the history frame: C12c).
 -/
 import Vt.Lemmas.Inv
 namespace Vt.C12
